@@ -320,8 +320,7 @@ example : ¬ Visible (exF 1 1) (base (exF 1 1) exSt) 1 99 := fun h => by
 /-- all hypotheses of `C18_repair_succeeds_univ` hold for the repaired reload after the failure -/
 example : (Entry.run (exF 9 0) 4 exSt' (.file 0)).2.1 = .ok :=
   C18_repair_succeeds_univ (exF 9 0) 4 exSt' (.file 0)
-    (C18_clean (exF 3 0) 4 exSt 0 exSt' .modproc 0
-      (C17_identity (exF 9 0) 4 St.init 3 exSt 0 WF.init (by decide)).1 rfl (by decide)).2
+    (loadMain_wf (exF 3 0) 4 exSt 0 rfl (loadMain_wf (exF 9 0) 4 St.init 3 rfl WF.init (by decide)) (by decide))
     trivial exF_nofault [0, 1, 2] (by decide) (by decide) (by decide) (by decide)
 
 end Repo
